@@ -85,7 +85,7 @@ pub const FIXED_DATE_PICS: &[&str] = &["YYYY-MM-DD", "DD/MM/YYYY", "YYYYMMDD", "
 pub fn run(ctx: &Ctx, st: &mut Stats) {
     cal();
     // generated pictures per type (seeded): a fixed pool reused across values keeps Formatter construction out of the hot loop
-    let npics = ctx.tier.pick(6, 60, 400);
+    let npics = ctx.tier.pick(6, 60, ctx.big(400, 1500) as usize);
     let mut rng = Rng::new(mix(ctx.seed, 0xC06));
     let mut pools: Vec<Vec<PicF>> = vec![];
     st.stratum("lossless pictures (compiled inside the panic boundary)", false);
@@ -143,7 +143,7 @@ pub fn run(ctx: &Ctx, st: &mut Stats) {
         }
     });
     // boundary + random values of every type x generated pictures (fresh pictures as well, thorough)
-    let n = ctx.tier.pick(600, 800_000, 16_000_000);
+    let n = ctx.tier.pick(600, 800_000, ctx.big(16_000_000, 100_000_000));
     ctx.par(st, "boundary+random values x generated lossless pictures, all six types", false, 0, n, |st, i, rng| {
         let tyi = (i % 6) as usize;
         let ty = ALL_TY[tyi];
